@@ -47,7 +47,6 @@ Definition lang_from_parts (input : tval) (script region : option bytes) : res (
     end
   end.
 
-Definition is_some {A} (o : option A) : bool := match o with Some _ => true | None => false end.
 
 Definition maximize (T : tables) (l s r : option bytes) : res (option triple) :=
   if is_some l && is_some s && is_some r then Ok None
